@@ -1,0 +1,393 @@
+//go:build verif
+
+// Contracts for nsqd/channel.go, second pass (area K): RequeueMessage, the timeout scans, Empty / exit /
+// Delete / Close, AddClient / RemoveClient, doPause (C02, C04, C01, C08, C13). Checked by nsqvc.
+// Comment-only file.
+
+package nsqd
+
+// ---- ghosts of the map pop (maintained by onreturn lines on popInFlightMessage) ------------------
+// kPops counts the completed popInFlightMessage calls, kPopErr is the error of the most recent one,
+// kPopChan/kPopClient/kPopID its arguments. They change together with lastPopped.
+//@ ghost kPops int
+//@ ghost kPopErr error
+//@ ghost kPopChan *Channel
+//@ ghost kPopClient int64
+//@ ghost kPopID MessageID
+// kHeapRemoves counts the removeFromInFlightPQ calls, kHeapRemovedMsg is the message of the most recent one.
+//@ ghost kHeapRemoves int
+//@ ghost kHeapRemovedMsg *Message
+//@ ghostgroup lastPopped, kPops, kPopErr, kPopChan, kPopClient, kPopID
+//@ ghostgroup kHeapRemoves, kHeapRemovedMsg
+
+// ---- REQ, channel half -----------------------------------------------------------------------------
+// PROPERTY TEXT (C02/C04/C13): a REQ that loses the race for the message (map pop refused) has no effect
+// at all; a REQ that wins is counted once; delay 0 re-enqueues the message at once unless the channel
+// is closing (then the REQ fails and nothing is enqueued); delay d > 0 defers it by exactly d.
+//@ func (c *Channel) RequeueMessage(clientID int64, id MessageID, timeout time.Duration) error
+//@   props C02 C04 C13
+//@   requires flowChan(c)
+//@   ensures[one-pop] kPops == old(kPops) + 1 && kPopChan == c && kPopClient == clientID && kPopID == id
+//@   ensures[pop-refused-returned] kPopErr != nil ==> result == kPopErr
+//@   ensures[pop-refused-nothing-else] kPopErr != nil ==> c.requeueCount == old(c.requeueCount) && chanPuts == old(chanPuts) && deferredPushes == old(deferredPushes) && backendWrites == old(backendWrites) && lastPopped == old(lastPopped) && kHeapRemoves == old(kHeapRemoves)
+//@   ensures[heap-entry-dropped] kPopErr == nil ==> kHeapRemoves == old(kHeapRemoves) + 1 && kHeapRemovedMsg == lastPopped
+//@   ensures[requeue-counted] kPopErr == nil ==> c.requeueCount == fmod(old(c.requeueCount) + 1, two64())
+//@   ensures[immediate-exiting-refused] kPopErr == nil && timeout == 0 && c.exitFlag == 1 ==> result != nil && chanPuts == old(chanPuts) && backendWrites == old(backendWrites) && deferredPushes == old(deferredPushes)
+//@   ensures[immediate-put] kPopErr == nil && timeout == 0 && c.exitFlag != 1 ==> chanPuts == old(chanPuts) + 1 && lastChanPutMsg == lastPopped && deferredPushes == old(deferredPushes)
+//@   ensures[immediate-ok-iff-enqueued] kPopErr == nil && timeout == 0 ==> ((result == nil) <==> chanPutOK == old(chanPutOK) + 1)
+//@   ensures[deferred] kPopErr == nil && timeout != 0 ==> deferredPushes == old(deferredPushes) + 1 && lastDeferredMsg == lastPopped && chanPuts == old(chanPuts) && backendWrites == old(backendWrites)
+//@   ensures[deferred-ok-iff-registered] kPopErr == nil && timeout != 0 ==> ((result == nil) <==> deferredPushOK == old(deferredPushOK) + 1)
+//@   ensures[deferred-deadline] kPopErr == nil && timeout != 0 ==> lastDeferredItem != nil && lastDeferredItem.Priority == unixNano(lastNow) + timeout && unbox(lastDeferredItem.Value, "*Message") == lastPopped
+//@   ensures[other-counters] c.messageCount == old(c.messageCount) && c.timeoutCount == old(c.timeoutCount) && c.exitFlag == old(c.exitFlag)
+//@   modifies c.inFlightMessages, c.inFlightPQ, mapstore(map[MessageID]*Message), elems(*Message), Message.index, deref(inFlightPqueue), c.requeueCount,
+//@        c.deferredMessages, c.deferredPQ, mapstore(map[MessageID]*pqueue.Item), elems(*pqueue.Item), pqueue.Item.Index,
+//@        lastPopped, kHeapRemoves, chanPuts, chanPutOK, lastChanPutMsg, backendWrites, lastWriteMsg, lastWriteQueue, lastWriteErr, healthSets, lastHealthErr, lastHealthNSQD,
+//@        deferredPushes, deferredPushOK, lastDeferredMsg, lastDeferredItem, lastNow, chanstore(*Message)
+//   what the REQ handler's contract observes (ghosts declared in zz_contracts_protocol_consumer_verif.go)
+//@   onreturn reqCalls := reqCalls + 1
+//@   onreturn reqChan := c
+//@   onreturn reqClient := clientID
+//@   onreturn reqID := id
+//@   onreturn reqTimeout := timeout
+//@   onreturn reqErr := result
+
+// lastDeferredItem (declared in zz_contracts_channel_verif.go) is the item of the most recent
+// pushDeferredMessage call; it changes together with the other deferred-push ghosts.
+//@ ghostgroup deferredPushes, deferredPushOK, lastDeferredMsg, lastDeferredItem
+
+// ---- timeout scans (queueScanWorker) ---------------------------------------------------------------
+// kDefShifts / kIFShifts count the PeekAndShift calls that handed out an entry (deferred heap / in-flight
+// heap); kDefShifted / kIFShifted are the entries of the most recent such calls.
+//@ ghost kDefShifts int
+//@ ghost kDefShifted *pqueue.Item
+//@ ghostgroup kDefShifts, kDefShifted
+//@ ghost kIFShifts int
+//@ ghost kIFShifted *Message
+//@ ghostgroup kIFShifts, kIFShifted
+
+// The channel's RWMutex protects the subscriber map; subscribers are never nil (AddClient requires it).
+//@ lock Channel.RWMutex guards clients, mapsof(map[int64]Consumer)
+//@   invariant[map] self.clients != nil
+//@   invariant[values] forall id int64 :: {self.clients[id]} has(self.clients, id) ==> self.clients[id] != nil
+
+// The Consumer interface (implemented by *clientV2; contracts of the implementation in
+// zz_contracts_client_verif.go). ASSUMED interface contracts: a Consumer method touches only the
+// per-connection counters / flags of connections, never channel state. Ghost call counters.
+//@ ghost kConsTimedOut int
+//@ ghost kConsEmptied int
+//@ ghost kConsClosed int
+//@ ghost kConsPaused int
+//@ ghost kConsUnpaused int
+//@ ghost kLastCons Consumer
+//@ ghost kLastClosed Consumer
+//@ ghostgroup kConsClosed, kLastClosed
+//@ extern (github.com/nsqio/nsq/nsqd.Consumer).TimedOutMessage(cl)
+//@   modifies clientV2.InFlightCount, kConsTimedOut, kLastCons
+//@   onreturn kConsTimedOut := kConsTimedOut + 1
+//@   onreturn kLastCons := cl
+//@ extern (github.com/nsqio/nsq/nsqd.Consumer).Empty(cl)
+//@   modifies clientV2.InFlightCount, kConsEmptied, kLastCons
+//@   onreturn kConsEmptied := kConsEmptied + 1
+//@   onreturn kLastCons := cl
+//@ extern (github.com/nsqio/nsq/nsqd.Consumer).Close(cl) (err)
+//@   modifies kConsClosed, kLastClosed
+//@   onreturn kConsClosed := kConsClosed + 1
+//@   onreturn kLastClosed := cl
+//@ extern (github.com/nsqio/nsq/nsqd.Consumer).Pause(cl)
+//@   modifies kConsPaused, kLastCons
+//@   onreturn kConsPaused := kConsPaused + 1
+//@   onreturn kLastCons := cl
+//@ extern (github.com/nsqio/nsq/nsqd.Consumer).UnPause(cl)
+//@   modifies kConsUnpaused, kLastCons
+//@   onreturn kConsUnpaused := kConsUnpaused + 1
+//@   onreturn kLastCons := cl
+
+// The deferred map pop: exactly one caller obtains a given deferred item; a refused call changes nothing.
+//@ func (c *Channel) popDeferredMessage(id MessageID) (*pqueue.Item, error)
+//@   props C04 C01 C13 C08
+//@   ghostparam gid MessageID
+//@   requires c != nil
+//@   ensures[absent] !atlock(isDeferred(c, id)) ==> result1 != nil && result0 == nil
+//@   ensures[present] atlock(isDeferred(c, id)) ==> result1 == nil && result0 == atlock(c.deferredMessages[id]) && !atunlock(isDeferred(c, id))
+//@   ensures[popped-carries-message] result1 == nil ==> msgItem(result0)
+//@   ensures[refused-changes-nothing] result1 != nil ==> (atunlock(isDeferred(c, gid)) <==> atlock(isDeferred(c, gid))) && atunlock(c.deferredMessages[gid]) == atlock(c.deferredMessages[gid])
+//@   ensures[others] gid != id ==> (atunlock(isDeferred(c, gid)) <==> atlock(isDeferred(c, gid))) && atunlock(c.deferredMessages[gid]) == atlock(c.deferredMessages[gid])
+//@   ensures[len] atunlock(len(c.deferredMessages)) == atlock(len(c.deferredMessages)) - (result1 == nil ? 1 : 0)
+//@   ensures[heap-untouched] atunlock(c.deferredPQ) == atlock(c.deferredPQ)
+//@   modifies c.deferredMessages, c.deferredPQ, mapstore(map[MessageID]*pqueue.Item)
+//@   onreturn kDefPops := kDefPops + 1
+//@   onreturn kDefPopErr := result1
+//@   onreturn kDefPopChan := c
+//@   onreturn kDefPopID := id
+//@ ghost kDefPops int
+//@ ghost kDefPopErr error
+//@ ghost kDefPopChan *Channel
+//@ ghost kDefPopID MessageID
+//@ ghostgroup kDefPops, kDefPopErr, kDefPopChan, kDefPopID
+
+// PROPERTY TEXT (C04/C01/C13): a deferred message is not delivered before its delay has elapsed (nothing
+// is taken from the heap whose deadline is after t), every entry taken from the heap is taken out of the
+// deferred map and handed to put - unless the map pop is refused (someone else won it: the scan stops);
+// a closing channel is not touched.
+//@ func (c *Channel) processDeferredQueue(t int64) bool
+//@   props C04 C01 C13
+//@   requires flowChan(c)
+//@   ensures[exiting-touches-nothing] old(c.exitFlag) == 1 ==> !result && kDefShifts == old(kDefShifts) && kDefPops == old(kDefPops) && chanPuts == old(chanPuts) && backendWrites == old(backendWrites)
+//@   ensures[every-shifted-popped] kDefPops - old(kDefPops) == kDefShifts - old(kDefShifts)
+//@   ensures[every-popped-requeued] chanPuts - old(chanPuts) == (kDefPops - old(kDefPops)) - (kDefPops > old(kDefPops) && kDefPopErr != nil ? 1 : 0)
+//@   ensures[pop-is-for-the-shifted] kDefPops > old(kDefPops) ==> kDefPopChan == c && kDefPopID == unbox(kDefShifted.Value, "*Message").ID
+//@   ensures[put-the-shifted] chanPuts > old(chanPuts) && kDefPopErr == nil ==> lastChanPutMsg == unbox(kDefShifted.Value, "*Message")
+//@   ensures[never-early] kDefShifts > old(kDefShifts) ==> kDefShifted.Priority <= t
+//@   ensures[dirty] result <==> kDefShifts > old(kDefShifts)
+//@   ensures[counters-untouched] c.messageCount == old(c.messageCount) && c.requeueCount == old(c.requeueCount) && c.timeoutCount == old(c.timeoutCount)
+//@   modifies c.deferredMessages, c.deferredPQ, mapstore(map[MessageID]*pqueue.Item), elems(*pqueue.Item), pqueue.Item.Index, deref(pqueue.PriorityQueue),
+//@        kDefShifts, kDefPops, chanPuts, chanPutOK, lastChanPutMsg, backendWrites, lastWriteMsg, lastWriteQueue, lastWriteErr, healthSets, lastHealthErr, lastHealthNSQD, chanstore(*Message)
+//@   loop 0
+//@     invariant[shifted-popped] kDefPops - old(kDefPops) == kDefShifts - old(kDefShifts) && kDefShifts >= old(kDefShifts)
+//@     invariant[popped-requeued] chanPuts - old(chanPuts) == kDefPops - old(kDefPops)
+//@     invariant[last-pop-ok] kDefPops > old(kDefPops) ==> kDefPopErr == nil && kDefPopChan == c && kDefPopID == unbox(kDefShifted.Value, "*Message").ID && lastChanPutMsg == unbox(kDefShifted.Value, "*Message")
+//@     invariant[never-early] kDefShifts > old(kDefShifts) ==> kDefShifted.Priority <= t
+//@     invariant[dirty] dirty <==> kDefShifts > old(kDefShifts)
+//@     invariant[counters] c.messageCount == old(c.messageCount) && c.requeueCount == old(c.requeueCount) && c.timeoutCount == old(c.timeoutCount)
+
+// PROPERTY TEXT (C04/C01/C13): an in-flight message is never timed out before its deadline (nothing is taken
+// from the heap whose deadline is after t); every entry taken from the heap is taken out of the in-flight
+// map (for its recorded owner) and handed to put - unless the map pop is refused (FIN/REQ/TOUCH won the
+// race: the scan stops and nothing is counted); timeoutCount advances by exactly the number of messages
+// handed back to the queue; the consumer is told at most once per timed-out message; a closing channel is
+// not touched.
+//@ func (c *Channel) processInFlightQueue(t int64) bool
+//@   props C04 C01 C13 C02
+//@   requires flowChan(c)
+//@   ensures[exiting-touches-nothing] old(c.exitFlag) == 1 ==> !result && kIFShifts == old(kIFShifts) && kPops == old(kPops) && chanPuts == old(chanPuts) && backendWrites == old(backendWrites) && c.timeoutCount == old(c.timeoutCount) && kConsTimedOut == old(kConsTimedOut)
+//@   ensures[every-shifted-popped] kPops - old(kPops) == kIFShifts - old(kIFShifts)
+//@   ensures[every-popped-requeued] chanPuts - old(chanPuts) == (kPops - old(kPops)) - (kPops > old(kPops) && kPopErr != nil ? 1 : 0)
+//@   ensures[pop-is-for-the-shifted] kPops > old(kPops) ==> kPopChan == c && kPopID == kIFShifted.ID && kPopClient == kIFShifted.clientID
+//@   ensures[put-the-shifted] chanPuts > old(chanPuts) && kPopErr == nil ==> lastChanPutMsg == kIFShifted
+//@   ensures[never-early] kIFShifts > old(kIFShifts) ==> kIFShifted.pri <= t
+//@   ensures[timeouts-counted] c.timeoutCount == (chanPuts == old(chanPuts) ? old(c.timeoutCount) : fmod(old(c.timeoutCount) + (chanPuts - old(chanPuts)), two64()))
+//@   ensures[consumer-told-at-most-once-each] kConsTimedOut - old(kConsTimedOut) <= chanPuts - old(chanPuts) && kConsTimedOut >= old(kConsTimedOut)
+//@   ensures[dirty] result <==> kIFShifts > old(kIFShifts)
+//@   ensures[counters-untouched] c.messageCount == old(c.messageCount) && c.requeueCount == old(c.requeueCount)
+//@   modifies c.inFlightMessages, c.inFlightPQ, mapstore(map[MessageID]*Message), elems(*Message), Message.index, deref(inFlightPqueue), c.timeoutCount,
+//@        c.clients, mapstore(map[int64]Consumer), clientV2.InFlightCount, kConsTimedOut, kLastCons,
+//@        kIFShifts, lastPopped, chanPuts, chanPutOK, lastChanPutMsg, backendWrites, lastWriteMsg, lastWriteQueue, lastWriteErr, healthSets, lastHealthErr, lastHealthNSQD, chanstore(*Message)
+//@   loop 0
+//@     invariant[shifted-popped] kPops - old(kPops) == kIFShifts - old(kIFShifts) && kIFShifts >= old(kIFShifts)
+//@     invariant[popped-requeued] chanPuts - old(chanPuts) == kPops - old(kPops)
+//@     invariant[last-pop-ok] kPops > old(kPops) ==> kPopErr == nil && kPopChan == c && kPopID == kIFShifted.ID && kPopClient == kIFShifted.clientID && lastChanPutMsg == kIFShifted
+//@     invariant[never-early] kIFShifts > old(kIFShifts) ==> kIFShifted.pri <= t
+//@     invariant[timeouts-counted] c.timeoutCount == (chanPuts == old(chanPuts) ? old(c.timeoutCount) : fmod(old(c.timeoutCount) + (chanPuts - old(chanPuts)), two64()))
+//@     invariant[told] kConsTimedOut - old(kConsTimedOut) <= chanPuts - old(chanPuts) && kConsTimedOut >= old(kConsTimedOut)
+//@     invariant[dirty] dirty <==> kIFShifts > old(kIFShifts)
+//@     invariant[counters] c.messageCount == old(c.messageCount) && c.requeueCount == old(c.requeueCount)
+
+// ---- Empty / exit / Delete / Close (C08, C13) ------------------------------------------------------
+// kInitPQs counts the initPQ calls (the in-flight and deferred maps and heaps are replaced by empty ones),
+// kInitPQChan is the channel of the most recent one.
+//@ ghost kInitPQs int
+//@ ghost kInitPQChan *Channel
+//@ ghostgroup kInitPQs, kInitPQChan
+// Ghosts of the BackendQueue calls (assumed contracts in .trusted/kchannel.spec).
+//@ ghost kBqEmpties int
+//@ ghost kBqEmptyQueue BackendQueue
+//@ ghost kBqEmptyErr error
+//@ ghost kBqEmptySawInitPQs int
+//@ ghostgroup kBqEmpties, kBqEmptyQueue, kBqEmptyErr, kBqEmptySawInitPQs
+//@ ghost kBqDeletes int
+//@ ghost kBqDeleteQueue BackendQueue
+//@ ghost kBqDeleteErr error
+//@ ghost kBqDeleteSawEmpties int
+//@ ghostgroup kBqDeletes, kBqDeleteQueue, kBqDeleteErr, kBqDeleteSawEmpties
+//@ ghost kBqCloses int
+//@ ghost kBqCloseQueue BackendQueue
+//@ ghost kBqCloseErr error
+//@ ghost kBqCloseSawWrites int
+//@ ghostgroup kBqCloses, kBqCloseQueue, kBqCloseErr, kBqCloseSawWrites
+
+//@ pred kIsSubscriber(c *Channel, cl Consumer) := exists id int64 :: {c.clients[id]} has(c.clients, id) && c.clients[id] == cl
+
+// PROPERTY TEXT (C08/C13): emptying discards everything queued, in flight and deferred at that moment while
+// keeping subscriptions: under the channel lock the in-flight/deferred maps and heaps are replaced (initPQ),
+// the subscribers' in-flight counters are reset (Consumer.Empty), the memory queues are drained - received and
+// dropped, nothing is written to the backend or re-enqueued - and then the backend is emptied; its error is
+// the result. No message counter is touched (depth / in-flight / deferred go to 0 with the containers).
+//@ func (c *Channel) Empty() error
+//@   props C08 C13
+//@   requires flowChan(c)
+//@   ensures[queues-reset-once] kInitPQs == old(kInitPQs) + 1 && kInitPQChan == c
+//@   ensures[backend-emptied-once] kBqEmpties == old(kBqEmpties) + 1 && kBqEmptyQueue == c.backend
+//@   ensures[backend-error-returned] result == kBqEmptyErr
+//@   ensures[reset-before-backend] kBqEmptySawInitPQs == kInitPQs
+//@   ensures[discarded-not-persisted] backendWrites == old(backendWrites) && chanPuts == old(chanPuts)
+//@   ensures[nothing-enqueued] sent(c.memoryMsgChan) == old(sent(c.memoryMsgChan)) && sent(c.zoneLocalMsgChan) == old(sent(c.zoneLocalMsgChan)) && sent(c.regionLocalMsgChan) == old(sent(c.regionLocalMsgChan))
+//@   ensures[drained-only] recvd(c.memoryMsgChan) >= old(recvd(c.memoryMsgChan)) && recvd(c.zoneLocalMsgChan) >= old(recvd(c.zoneLocalMsgChan)) && recvd(c.regionLocalMsgChan) >= old(recvd(c.regionLocalMsgChan))
+//@   ensures[subscriptions-kept] atunlock(c.clients) == atlock(c.clients) && atunlock(len(c.clients)) == atlock(len(c.clients)) && (forall id int64 :: {atunlock(c.clients[id])} (atunlock(has(c.clients, id)) <==> atlock(has(c.clients, id))) && atunlock(c.clients[id]) == atlock(c.clients[id]))
+//@   ensures[emptied-are-subscribers] kConsEmptied > old(kConsEmptied) ==> atunlock(kIsSubscriber(c, now(kLastCons)))
+//@   ensures[only-emptied] kConsClosed == old(kConsClosed) && kConsPaused == old(kConsPaused) && kConsUnpaused == old(kConsUnpaused) && kConsTimedOut == old(kConsTimedOut)
+//@   ensures[counters-untouched] c.messageCount == old(c.messageCount) && c.requeueCount == old(c.requeueCount) && c.timeoutCount == old(c.timeoutCount) && c.exitFlag == old(c.exitFlag) && c.paused == old(c.paused)
+//@   modifies c.clients, mapstore(map[int64]Consumer), clientV2.InFlightCount, kConsEmptied, kLastCons,
+//@        c.inFlightMessages, c.inFlightPQ, mapstore(map[MessageID]*Message), Message.index, c.deferredMessages, c.deferredPQ, mapstore(map[MessageID]*pqueue.Item),
+//@        kInitPQs, kBqEmpties, chanstore(*Message)
+//@   loop 0
+//@     invariant[reset-done] kInitPQs == old(kInitPQs) + 1 && kInitPQChan == c && kBqEmpties == old(kBqEmpties)
+//@     invariant[subscriptions-kept] c.clients == atlock(c.clients) && len(c.clients) == atlock(len(c.clients)) && (forall id int64 :: {c.clients[id]} (has(c.clients, id) <==> atlock(has(c.clients, id))) && c.clients[id] == atlock(c.clients[id]))
+//@     invariant[emptied-are-subscribers] kConsEmptied >= old(kConsEmptied) && (kConsEmptied > old(kConsEmptied) ==> kIsSubscriber(c, kLastCons))
+//@     invariant[only-emptied] kConsClosed == old(kConsClosed) && kConsPaused == old(kConsPaused) && kConsUnpaused == old(kConsUnpaused) && kConsTimedOut == old(kConsTimedOut)
+//@     invariant[channels] sent(c.memoryMsgChan) == old(sent(c.memoryMsgChan)) && sent(c.zoneLocalMsgChan) == old(sent(c.zoneLocalMsgChan)) && sent(c.regionLocalMsgChan) == old(sent(c.regionLocalMsgChan)) &&
+//@          recvd(c.memoryMsgChan) == old(recvd(c.memoryMsgChan)) && recvd(c.zoneLocalMsgChan) == old(recvd(c.zoneLocalMsgChan)) && recvd(c.regionLocalMsgChan) == old(recvd(c.regionLocalMsgChan))
+//@   loop 1
+//@     invariant[reset-done] kInitPQs == old(kInitPQs) + 1 && kInitPQChan == c && kBqEmpties == old(kBqEmpties)
+//@     invariant[subscriptions-kept] c.clients == atlock(c.clients) && len(c.clients) == atlock(len(c.clients)) && (forall id int64 :: {c.clients[id]} (has(c.clients, id) <==> atlock(has(c.clients, id))) && c.clients[id] == atlock(c.clients[id]))
+//@     invariant[emptied-are-subscribers] kConsEmptied >= old(kConsEmptied) && (kConsEmptied > old(kConsEmptied) ==> kIsSubscriber(c, kLastCons))
+//@     invariant[only-emptied] kConsClosed == old(kConsClosed) && kConsPaused == old(kConsPaused) && kConsUnpaused == old(kConsUnpaused) && kConsTimedOut == old(kConsTimedOut)
+//@     invariant[drain-only] sent(c.memoryMsgChan) == old(sent(c.memoryMsgChan)) && sent(c.zoneLocalMsgChan) == old(sent(c.zoneLocalMsgChan)) && sent(c.regionLocalMsgChan) == old(sent(c.regionLocalMsgChan)) &&
+//@          recvd(c.memoryMsgChan) >= old(recvd(c.memoryMsgChan)) && recvd(c.zoneLocalMsgChan) >= old(recvd(c.zoneLocalMsgChan)) && recvd(c.regionLocalMsgChan) >= old(recvd(c.regionLocalMsgChan))
+
+// kFlushes counts the Channel.flush calls (kTopicFlushes: Topic.flush), kFlushChan is the channel of the last one.
+//@ ghost kFlushes int
+//@ ghost kFlushChan *Channel
+//@ ghostgroup kFlushes, kFlushChan
+//@ ghost kTopicFlushes int
+//@ ghost kFlushTopic *Topic
+//@ ghostgroup kTopicFlushes, kFlushTopic
+
+// NSQD.Notify hands the topic/channel to the lookup loop and persists the metadata - asynchronously, in a
+// goroutine of its own (waitGroup.Wrap). ASSUMED (trusted, body not verified): the call itself changes no
+// modelled state; it is recorded in ghosts.
+//@ ghost kNotifies int
+//@ ghost kNotifyNSQD *NSQD
+//@ ghost kNotifyValue interface{}
+//@ ghost kNotifyPersist bool
+//@ ghostgroup kNotifies, kNotifyNSQD, kNotifyValue, kNotifyPersist
+//@ func (n *NSQD) Notify(v interface{}, persist bool)
+//@   props C08
+//@   trusted
+//@   requires n != nil
+//@   modifies kNotifies
+//@   onreturn kNotifies := kNotifies + 1
+//@   onreturn kNotifyNSQD := n
+//@   onreturn kNotifyValue := v
+//@   onreturn kNotifyPersist := persist
+
+
+// PROPERTY TEXT (C08): deleting a channel disconnects its consumers, discards its messages and removes its disk
+// files; closing (shutdown) persists them instead. Either happens exactly once: the exit flag goes 0 -> 1 by
+// compare-and-swap; a second call returns an error and does nothing. Ephemeral channels are announced with
+// persist == false (they never reach the persisted metadata).
+//@ func (c *Channel) exit(deleted bool) error
+//@   props C08 C05 C13
+//@   requires flowChan(c)
+//@   ensures[second-call-refused] old(c.exitFlag) != 0 ==> result != nil && c.exitFlag == old(c.exitFlag)
+//@   ensures[second-call-no-effect] old(c.exitFlag) != 0 ==> kNotifies == old(kNotifies) && kConsClosed == old(kConsClosed) && kInitPQs == old(kInitPQs) && kBqEmpties == old(kBqEmpties) && kBqDeletes == old(kBqDeletes) && kBqCloses == old(kBqCloses) && kFlushes == old(kFlushes) && backendWrites == old(backendWrites)
+//@   ensures[flag-set] old(c.exitFlag) == 0 ==> c.exitFlag == 1
+//@   ensures[delete-announced] old(c.exitFlag) == 0 && deleted ==> kNotifies == old(kNotifies) + 1 && kNotifyNSQD == c.nsqd && dyntype(kNotifyValue) == typetag("*Channel") && unbox(kNotifyValue, "*Channel") == c && kNotifyPersist == !c.ephemeral
+//@   ensures[close-not-announced] old(c.exitFlag) == 0 && !deleted ==> kNotifies == old(kNotifies)
+//@   ensures[closed-are-subscribers] kConsClosed > old(kConsClosed) ==> atunlock(kIsSubscriber(c, now(kLastClosed)))
+//@   ensures[delete-discards-then-removes-files] old(c.exitFlag) == 0 && deleted ==> kInitPQs == old(kInitPQs) + 1 && kInitPQChan == c && kBqEmpties == old(kBqEmpties) + 1 && kBqEmptyQueue == c.backend &&
+//@        kBqDeletes == old(kBqDeletes) + 1 && kBqDeleteQueue == c.backend && kBqDeleteSawEmpties == kBqEmpties && result == kBqDeleteErr
+//@   ensures[delete-persists-nothing] old(c.exitFlag) == 0 && deleted ==> kBqCloses == old(kBqCloses) && kFlushes == old(kFlushes) && backendWrites == old(backendWrites)
+//@   ensures[close-flushes-then-closes] old(c.exitFlag) == 0 && !deleted ==> kFlushes == old(kFlushes) + 1 && kFlushChan == c && kBqCloses == old(kBqCloses) + 1 && kBqCloseQueue == c.backend && kBqCloseSawWrites == kFlushes + kTopicFlushes && result == kBqCloseErr
+//@   ensures[close-discards-nothing] old(c.exitFlag) == 0 && !deleted ==> kInitPQs == old(kInitPQs) && kBqEmpties == old(kBqEmpties) && kBqDeletes == old(kBqDeletes)
+//@   ensures[counters-untouched] c.messageCount == old(c.messageCount) && c.requeueCount == old(c.requeueCount) && c.timeoutCount == old(c.timeoutCount)
+//@   modifies c.exitFlag, kNotifies, c.clients, mapstore(map[int64]Consumer), clientV2.InFlightCount, kConsEmptied, kConsClosed, kLastCons,
+//@        c.inFlightMessages, c.inFlightPQ, mapstore(map[MessageID]*Message), Message.index, c.deferredMessages, c.deferredPQ, mapstore(map[MessageID]*pqueue.Item),
+//@        kInitPQs, kBqEmpties, kBqDeletes, kBqCloses, kFlushes, backendWrites, lastWriteMsg, lastWriteQueue, lastWriteErr, chanstore(*Message)
+//@   loop 0
+//@     invariant[first] old(c.exitFlag) == 0 && c.exitFlag == 1
+//@     invariant[announced] kNotifies == old(kNotifies) + (deleted ? 1 : 0) && (deleted ==> kNotifyNSQD == c.nsqd && dyntype(kNotifyValue) == typetag("*Channel") && unbox(kNotifyValue, "*Channel") == c && kNotifyPersist == !c.ephemeral)
+//@     invariant[closed-are-subscribers] kConsClosed >= old(kConsClosed) && (kConsClosed > old(kConsClosed) ==> kIsSubscriber(c, kLastClosed))
+//@     invariant[nothing-else-yet] kInitPQs == old(kInitPQs) && kBqEmpties == old(kBqEmpties) && kBqDeletes == old(kBqDeletes) && kBqCloses == old(kBqCloses) && kFlushes == old(kFlushes) && backendWrites == old(backendWrites) && kConsEmptied == old(kConsEmptied)
+//@     invariant[counters] c.messageCount == old(c.messageCount) && c.requeueCount == old(c.requeueCount) && c.timeoutCount == old(c.timeoutCount)
+
+// kChanDeletes counts the Channel.Delete calls, kDeletedChan is the channel of the most recent one.
+//@ ghost kChanDeletes int
+//@ ghost kDeletedChan *Channel
+//@ ghostgroup kChanDeletes, kDeletedChan
+//@ func (c *Channel) Delete() error
+//@   props C08
+//@   requires flowChan(c)
+//@   onreturn kChanDeletes := kChanDeletes + 1
+//@   onreturn kDeletedChan := c
+//@   ensures[second-call-refused] old(c.exitFlag) != 0 ==> result != nil && c.exitFlag == old(c.exitFlag) && kBqDeletes == old(kBqDeletes) && kBqEmpties == old(kBqEmpties) && kNotifies == old(kNotifies)
+//@   ensures[deleted] old(c.exitFlag) == 0 ==> c.exitFlag == 1 && kNotifies == old(kNotifies) + 1 && kNotifyPersist == !c.ephemeral && kInitPQs == old(kInitPQs) + 1 && kBqEmpties == old(kBqEmpties) + 1 && kBqDeletes == old(kBqDeletes) + 1 && kBqDeleteQueue == c.backend && result == kBqDeleteErr
+//@   ensures[persists-nothing] kBqCloses == old(kBqCloses) && kFlushes == old(kFlushes) && backendWrites == old(backendWrites)
+//@   modifies c.exitFlag, kNotifies, c.clients, mapstore(map[int64]Consumer), clientV2.InFlightCount, kConsEmptied, kConsClosed, kLastCons,
+//@        c.inFlightMessages, c.inFlightPQ, mapstore(map[MessageID]*Message), Message.index, c.deferredMessages, c.deferredPQ, mapstore(map[MessageID]*pqueue.Item),
+//@        kInitPQs, kBqEmpties, kBqDeletes, kBqCloses, kFlushes, backendWrites, lastWriteMsg, lastWriteQueue, lastWriteErr, chanstore(*Message)
+
+//@ func (c *Channel) Close() error
+//@   props C08 C05
+//@   requires flowChan(c)
+//@   ensures[second-call-refused] old(c.exitFlag) != 0 ==> result != nil && c.exitFlag == old(c.exitFlag) && kBqCloses == old(kBqCloses) && kFlushes == old(kFlushes)
+//@   ensures[closed] old(c.exitFlag) == 0 ==> c.exitFlag == 1 && kFlushes == old(kFlushes) + 1 && kFlushChan == c && kBqCloses == old(kBqCloses) + 1 && kBqCloseQueue == c.backend && result == kBqCloseErr
+//@   ensures[discards-nothing] kInitPQs == old(kInitPQs) && kBqEmpties == old(kBqEmpties) && kBqDeletes == old(kBqDeletes) && kNotifies == old(kNotifies)
+//@   modifies c.exitFlag, kNotifies, c.clients, mapstore(map[int64]Consumer), clientV2.InFlightCount, kConsEmptied, kConsClosed, kLastCons,
+//@        c.inFlightMessages, c.inFlightPQ, mapstore(map[MessageID]*Message), Message.index, c.deferredMessages, c.deferredPQ, mapstore(map[MessageID]*pqueue.Item),
+//@        kInitPQs, kBqEmpties, kBqDeletes, kBqCloses, kFlushes, backendWrites, lastWriteMsg, lastWriteQueue, lastWriteErr, chanstore(*Message)
+
+// ---- subscribers (C08) -------------------------------------------------------------------------------
+//@ immutable Options.MaxChannelConsumers
+//@ pred kOthersKept(c *Channel, clientID int64) := forall id int64 :: {atunlock(c.clients[id])} id != clientID ==> (atunlock(has(c.clients, id)) <==> atlock(has(c.clients, id))) && atunlock(c.clients[id]) == atlock(c.clients[id])
+
+// AddClient: a closing channel refuses; success means the connection is subscribed when the channel lock
+// is released; a refusal changes nothing; the only refusals are "exiting" and "over max-channel-consumers"
+// (observed when the limit was checked); other subscriptions are never touched.
+// [limit-honoured] (stated last; the engine assumes earlier clauses while proving later ones): in monitor terms
+// - if, when the channel lock is taken for the section this call ends with, the channel is at its limit and
+// the connection is not subscribed, the call must refuse and add nothing. FAILS on the unchanged code (genuine
+// defect, NOTES.md D1): the limit is checked under RLock and the insertion happens in a later, separate Lock
+// section without re-checking, so concurrent SUBs exceed --max-channel-consumers
+// (replay nsqd_max_channel_consumers_race_test.go; fix 0001-...patch makes the clause discharge).
+//@ func (c *Channel) AddClient(clientID int64, client Consumer) error
+//@   props C08
+//@   requires c != nil && c.nsqd != nil && client != nil
+//@   ensures[exiting-refused] c.exitFlag == 1 ==> result != nil
+//@   ensures[subscribed] result == nil ==> atunlock(has(c.clients, clientID))
+//@   ensures[refusal-reasons] result != nil && c.exitFlag != 1 ==> curOpts(c.nsqd).MaxChannelConsumers != 0 && atlock(len(c.clients)) >= curOpts(c.nsqd).MaxChannelConsumers && !atlock(has(c.clients, clientID))
+//@   ensures[refused-changes-nothing] result != nil && c.exitFlag != 1 ==> atunlock(len(c.clients)) == atlock(len(c.clients)) && (atunlock(has(c.clients, clientID)) <==> atlock(has(c.clients, clientID)))
+//@   ensures[others-kept] c.exitFlag != 1 ==> kOthersKept(c, clientID)
+//@   ensures[at-most-one-more] c.exitFlag != 1 ==> atunlock(len(c.clients)) == atlock(len(c.clients)) || (atunlock(len(c.clients)) == atlock(len(c.clients)) + 1 && !atlock(has(c.clients, clientID)) && atunlock(c.clients[clientID]) == client)
+//@   modifies c.clients, mapstore(map[int64]Consumer)
+
+// RemoveClient: afterwards the connection is not subscribed (unless the channel is closing: then nothing is
+// touched - exit() closes the connections itself); other subscriptions are never touched.
+// An EPHEMERAL CHANNEL disappears once its last consumer leaves: its deletion is started (go c.deleter.Do, recorded
+// by the onceSpawns ghosts) exactly when this call removed the last subscription of an ephemeral channel.
+//@ func (c *Channel) RemoveClient(clientID int64)
+//@   props C08
+//@   requires c != nil
+//@   ensures[unsubscribed] c.exitFlag != 1 ==> !atunlock(has(c.clients, clientID))
+//@   ensures[others-kept] c.exitFlag != 1 ==> kOthersKept(c, clientID)
+//@   ensures[len] c.exitFlag != 1 ==> atunlock(len(c.clients)) == atlock(len(c.clients)) - (atlock(has(c.clients, clientID)) ? 1 : 0)
+//@   ensures[deletion-only-if-ephemeral-and-last] onceSpawns != old(onceSpawns) ==> c.ephemeral && onceSpawns == old(onceSpawns) + 1 && onceSpawned == &c.deleter
+//@   ensures[durable-channel-stays] !c.ephemeral ==> onceSpawns == old(onceSpawns)
+//@   modifies c.clients, mapstore(map[int64]Consumer), onceSpawns
+
+// doPause sets the flag first and then tells the subscribers (only subscribers, only the matching call).
+//@ func (c *Channel) doPause(pause bool) error
+//@   props C08 C03
+//@   requires c != nil
+//@   ensures[flag] c.paused == (pause ? 1 : 0)
+//@   ensures[no-error] result == nil
+//@   ensures[matching-call-only] (pause ==> kConsUnpaused == old(kConsUnpaused)) && (!pause ==> kConsPaused == old(kConsPaused))
+//@   ensures[told-are-subscribers] kConsPaused + kConsUnpaused > old(kConsPaused) + old(kConsUnpaused) ==> atunlock(kIsSubscriber(c, now(kLastCons)))
+//@   ensures[subscriptions-kept] atunlock(c.clients) == atlock(c.clients) && atunlock(len(c.clients)) == atlock(len(c.clients))
+//@   modifies c.paused, c.clients, mapstore(map[int64]Consumer), kConsPaused, kConsUnpaused, kLastCons
+//@   loop 0
+//@     invariant[flag] c.paused == (pause ? 1 : 0)
+//@     invariant[matching-call-only] kConsPaused >= old(kConsPaused) && kConsUnpaused >= old(kConsUnpaused) && (pause ==> kConsUnpaused == old(kConsUnpaused)) && (!pause ==> kConsPaused == old(kConsPaused))
+//@     invariant[told-are-subscribers] kConsPaused + kConsUnpaused > old(kConsPaused) + old(kConsUnpaused) ==> kIsSubscriber(c, kLastCons)
+//@     invariant[subscriptions-kept] c.clients == atlock(c.clients) && len(c.clients) == atlock(len(c.clients)) && (forall id int64 :: {c.clients[id]} (has(c.clients, id) <==> atlock(has(c.clients, id))) && c.clients[id] == atlock(c.clients[id]))
+
+//@ func (c *Channel) Pause() error
+//@   props C08 C03
+//@   requires c != nil
+//@   ensures[paused] c.paused == 1 && result == nil && kConsUnpaused == old(kConsUnpaused)
+//@   modifies c.paused, c.clients, mapstore(map[int64]Consumer), kConsPaused, kConsUnpaused, kLastCons
+
+//@ func (c *Channel) UnPause() error
+//@   props C08 C03
+//@   requires c != nil
+//@   ensures[unpaused] c.paused == 0 && result == nil && kConsPaused == old(kConsPaused)
+//@   modifies c.paused, c.clients, mapstore(map[int64]Consumer), kConsPaused, kConsUnpaused, kLastCons
